@@ -8,7 +8,7 @@ Section P.
   Variable diag : text -> ds.
   Variable empty : ds.
   Notation st := (st ds).
-  Notation step := (step ds diag empty).
+  Notation step := (step ds diag empty true).
   Notation good := (good ds diag empty).
 
   Lemma upd_eq : forall A (f : uri -> A) u v, upd f u v u = v.
@@ -125,6 +125,7 @@ Section P.
           -- destruct Hi as [Hi | [[e [He _]] | Hi]]; [left; assumption | congruence | right; right; assumption].
           -- destruct Hi as [Hi | [Hi | [e [He _]]]]; [left; assumption | right; left; assumption | congruence].
     - (* remove, section 1 *)
+      change (rm_step1 ds empty true s u q) with (mkSt (upd (an s) u None) (pub s) (tokens s) (tasks s) (next s) q (Some (ERemove u))).
       split; [|split].
       + unfold mid_ok. cbn [mid an]. apply upd_eq.
       + exact Hid.
@@ -162,6 +163,7 @@ Section P.
           -- destruct Hi as [Hi | [Hi | [e [He Hu]]]]; [left; assumption | right; left; assumption|].
              rewrite Hmid in He. inversion He; subst. cbn in Hne. contradiction.
     - (* remove, section 2: publish [] *)
+      change (rm_step2 ds empty true s u) with (mkSt (an s) (upd (pub s) u (Some empty)) (tokens s) (tasks s) (next s) (queue s) None).
       split; [|split].
       + unfold mid_ok. cbn [mid]. exact I.
       + exact Hid.
@@ -230,12 +232,12 @@ Section P.
       + rewrite upd_neq by assumption. apply Hi.
   Qed.
 
-  Lemma inv_reach : forall s0 s, start ds diag empty s0 -> reach ds diag empty s0 s -> inv s.
+  Lemma inv_reach : forall s0 s, start ds diag empty s0 -> reach ds diag empty true s0 s -> inv s.
   Proof.
     intros s0 s H0 Hr. induction Hr; [apply inv_start; assumption | eapply inv_step; eassumption].
   Qed.
 
-  Theorem published_converge : forall s0 s, start ds diag empty s0 -> reach ds diag empty s0 s ->
+  Theorem published_converge : forall s0 s, start ds diag empty s0 -> reach ds diag empty true s0 s ->
     quiescent ds s -> forall u, good s u.
   Proof.
     intros s0 s H0 Hr [Hq [Hmid Ht]] u. destruct (inv_reach _ _ H0 Hr) as [_ [_ Hi]].
@@ -248,8 +250,8 @@ End P.
 (** * the unconditional token removal: real in the model, harmless for convergence *)
 Section Race.
   Notation stN := (st nat).
-  Notation stepN := (step nat (fun t => t) 0).
-  Notation reachN := (reach nat (fun t => t) 0).
+  Notation stepN := (step nat (fun t => t) 0 true).
+  Notation reachN := (reach nat (fun t => t) 0 true).
 
   Lemma reach_front : forall (s0 s1 s : stN), stepN s0 s1 -> reachN s1 s -> reachN s0 s.
   Proof.
@@ -273,11 +275,11 @@ Section Race.
     - eexists. split.
       + eapply reach_front; [eapply e_a_edit; reflexivity|]. cbn [an pub tokens tasks next queue mid].
         eapply reach_front; [eapply e_b_edit; reflexivity|]. cbn [an pub tokens tasks next queue mid].
-        eapply reach_front; [eapply (t_fire _ _ _ _ [] _ []); reflexivity|]. cbn [an pub tokens tasks next queue mid app tk_id tk_uri tk_cancelled].
+        eapply reach_front; [eapply (t_fire _ _ _ _ _ [] _ []); reflexivity|]. cbn [an pub tokens tasks next queue mid app tk_id tk_uri tk_cancelled].
         eapply reach_front; [eapply e_a_edit; reflexivity|]. cbn [an pub tokens tasks next queue mid].
         eapply reach_front; [eapply e_b_edit; reflexivity|]. cbn [an pub tokens tasks next queue mid].
         eapply reach_front.
-        { eapply (t_run_skip _ _ _ _ [_] _ []); [vm_compute; reflexivity | reflexivity | left; reflexivity]. }
+        { eapply (t_run_skip _ _ _ _ _ [_] _ []); [vm_compute; reflexivity | reflexivity | left; reflexivity]. }
         apply reach0.
       + split; [vm_compute; reflexivity|]. eexists. split; [left; reflexivity|]. vm_compute. repeat split; reflexivity.
   Qed.
@@ -289,16 +291,51 @@ Section Race.
     eexists. split.
     - eapply reach_front; [eapply e_a_edit; reflexivity|]. cbn [an pub tokens tasks next queue mid].
       eapply reach_front; [eapply e_b_edit; reflexivity|]. cbn [an pub tokens tasks next queue mid].
-      eapply reach_front; [eapply (t_fire _ _ _ _ [] _ []); reflexivity|]. cbn [an pub tokens tasks next queue mid app tk_id tk_uri tk_cancelled].
+      eapply reach_front; [eapply (t_fire _ _ _ _ _ [] _ []); reflexivity|]. cbn [an pub tokens tasks next queue mid app tk_id tk_uri tk_cancelled].
       eapply reach_front; [eapply e_a_edit; reflexivity|]. cbn [an pub tokens tasks next queue mid].
       eapply reach_front; [eapply e_b_edit; reflexivity|]. cbn [an pub tokens tasks next queue mid].
       eapply reach_front.
-      { eapply (t_run_skip _ _ _ _ [_] _ []); [vm_compute; reflexivity | reflexivity | left; reflexivity]. }
+      { eapply (t_run_skip _ _ _ _ _ [_] _ []); [vm_compute; reflexivity | reflexivity | left; reflexivity]. }
       cbn [an pub tokens tasks next queue mid app tk_id tk_uri tk_cancelled].
-      eapply reach_front; [eapply (t_fire _ _ _ _ [] _ []); reflexivity|]. cbn [an pub tokens tasks next queue mid app tk_id tk_uri tk_cancelled].
+      eapply reach_front; [eapply (t_fire _ _ _ _ _ [] _ []); reflexivity|]. cbn [an pub tokens tasks next queue mid app tk_id tk_uri tk_cancelled].
       eapply reach_front.
-      { eapply (t_run_pub _ _ _ _ [] _ [] 2); [reflexivity | reflexivity | vm_compute; reflexivity]. }
+      { eapply (t_run_pub _ _ _ _ _ [] _ [] 2); [reflexivity | reflexivity | vm_compute; reflexivity]. }
       apply reach0.
     - vm_compute. repeat split; reflexivity.
   Qed.
 End Race.
+
+(** * if the empty publish came BEFORE the removal, a diagnosis still in flight would publish after it *)
+Section ClearFirst.
+  Notation stepF := (step nat (fun t => t) 0 false).
+  Notation reachF := (reach nat (fun t => t) 0 false).
+
+  Lemma reach_frontF : forall (s0 s1 s : st nat), stepF s0 s1 -> reachF s1 s -> reachF s0 s.
+  Proof.
+    intros s0 s1 s H Hr. induction Hr.
+    - eapply reachS; [apply reach0 | assumption].
+    - eapply reachS; eassumption.
+  Qed.
+
+  Definition clear_first_start : st nat :=
+    mkSt (fun _ => None) (fun _ => None) (fun _ => None) [] 0 [EEdit 0 1; ERemove 0] None.
+
+  Lemma clear_first_refuted :
+    start nat (fun t => t) 0 clear_first_start /\
+    exists s, reachF clear_first_start s /\ quiescent nat s /\ an s 0 = None /\ pub s 0 = Some 1.
+  Proof.
+    split.
+    - repeat split; try reflexivity. intros u. left. reflexivity.
+    - eexists. split.
+      + eapply reach_frontF; [eapply e_a_edit; reflexivity|]. cbn [an pub tokens tasks next queue mid].
+        eapply reach_frontF; [eapply e_b_edit; reflexivity|]. cbn [an pub tokens tasks next queue mid].
+        eapply reach_frontF; [eapply (t_fire _ _ _ _ _ [] _ []); reflexivity|]. cbn [an pub tokens tasks next queue mid app tk_id tk_uri tk_cancelled].
+        eapply reach_frontF; [eapply e_a_remove; reflexivity|]. unfold rm_step1. cbn [an pub tokens tasks next queue mid].
+        eapply reach_frontF.
+        { eapply (t_run_pub _ _ _ _ _ [] _ [] 1); [reflexivity | reflexivity | vm_compute; reflexivity]. }
+        cbn [an pub tokens tasks next queue mid app tk_id tk_uri tk_cancelled].
+        eapply reach_frontF; [eapply e_b_remove; reflexivity|]. unfold rm_step2. cbn [an pub tokens tasks next queue mid].
+        apply reach0.
+      + vm_compute. repeat split; reflexivity.
+  Qed.
+End ClearFirst.
